@@ -34,7 +34,7 @@ def pSlot : String → Option Slot
 
 def pFn (s : Slot) (f : String) : Option Fn :=
   if s == .h then
-    match f with | "both" => some .both | "half" => some .half | _ => none
+    match f with | "both" => some .both | "half" => some .half | "grab" => some .grab | _ => none
   else
     match f with
     | "set" => some .set | "del" => some .del | "inc" => some .inc | "fail" => some .fail | "sum" => some .sum
@@ -83,6 +83,11 @@ def parseOp : List String → Op
   | ["commit"] => .commit
   | ["restart"] => .restart
   | "open" :: cfgs => if 1 ≤ cfgs.length && cfgs.length ≤ 8 && cfgs.all pCfg then .openCfgs cfgs.length else .bad
+  | "probe" :: who :: gas :: msgs =>
+    if msgs.length < 1 || msgs.length > 3 then .bad else
+    match pWho who, pNat gas 9, pMsgs msgs with
+    | some _, some g, some _ => if 1000000 ≤ g && g ≤ 299999999 then .probe else .bad
+    | _, _, _ => .bad
   | "tx" :: who :: gas :: msgs =>
     if msgs.length < 1 || msgs.length > 4 then .bad else
     match pWho who, pMsgs msgs with
